@@ -328,6 +328,10 @@ fn ser_case() -> BoxedStrategy<SerCase> {
     .boxed()
 }
 
+pub fn ser_case_pub() -> impl Strategy<Value = SerCase> {
+    ser_case()
+}
+
 fn c20_case(c: &SerCase) -> CaseResult {
     let reg = registry();
     let f = reg.iter().find(|(n, _)| *n == c.ty).map(|(_, f)| *f).ok_or_else(|| Fail::new("harness: unknown type in case", c.ty.clone()))?;
@@ -360,6 +364,7 @@ fn c20_case(c: &SerCase) -> CaseResult {
 }
 
 pub fn c20(ctx: &mut Ctx) {
+    crate::fuzz_api::replay_raw_saved(ctx);
     ctx.rule = "arbitrary values of i64, u64, f64 (bit patterns), usize, bool, String, Vec<u8>, nested vectors, SystemTime (pre-epoch, epoch, far future, sub-second), UTF-8 PathBuf, SocketAddr/IpAddr (v4, v6, mapped, scoped), DbValue, DbKeyValue, DbId, DbKeyOrder, QueryId(s), QueryValues, conditions (nested where to depth 4), SearchQuery, every query through QueryType (built by the same grammar as the histories), and a corpus of derived user types (named / tuple / unit / empty structs, a generic struct, enums with unit / tuple / multi-field / struct variants, nested enums-in-structs-in-vectors). Oracle: T::deserialize(x.serialize()) is Ok and equals x (Debug text and re-serialized bytes, so floats compare bitwise) and x.serialized_size() == x.serialize().len(). Non-trivial: the value has a variable-length component. Distinct = hash of (type, bytes). IPv6 socket addresses are generated with flow label 0 (what parsing text or the OS yields; a non-zero flow label is outside the textual encoding the codec documents).".into();
     let cases = ctx.tier.pick(400_000, 4_000_000);
     replay_saved::<SerCase, _>(ctx, "c20-roundtrip", c20_case);
@@ -549,6 +554,7 @@ fn de_case() -> impl Strategy<Value = DeCase> {
 }
 
 pub fn c21(ctx: &mut Ctx) {
+    crate::fuzz_api::replay_raw_saved(ctx);
     ctx.rule = "valid encodings of every C20 type mutated by: truncation at a generated offset, overwriting 8 bytes at a generated offset with a boundary length (len+-1, 2^31, 2^32+1, 2^56, 2^63, u64::MAX, u64::MAX-7, u64::MAX/8, remaining, remaining+1, 0), setting a byte (0, 255, random; reaches enum variant bytes), flipping a bit, appending junk, filling a run of 1..24 bytes with 0xff/0x00/0x80 (several adjacent fields at a boundary at once), overwriting a 32-bit field with boundary values (10^9-1, 10^9, 2^31, u32::MAX), optionally followed by one or two further mutations; plus random byte strings of 0..512 bytes. Every input is fed to the deserializer of its own type and to one other generated type out of 54 (all built-in and derived deserializers and the typed conversions of byte-array values: Vec<i64|u64|f64|String|bool|derived value types|SystemTime|SocketAddr>::try_from(DbValue::Bytes)). Cases run in isolated child processes with a 64 MiB single-allocation cap. Oracle: every call returns Ok or Err - no panic, abort or enormous allocation request. evaluations = deserializer calls. Non-trivial: the input is a mutated valid encoding. Distinct = hash of the case.".into();
     let cases = ctx.tier.pick(150_000, 3_000_000);
     replay_saved::<DeCase, _>(ctx, "c21-deserialize", c21_case);
